@@ -26,7 +26,7 @@
          every configuration, 0 < RandomizeWindow <= 2^29, any RandomizeScale; it never panics with the default scale), the FINDING
          C04_get_move_scale_panics (RandomizeScale > RandomizeWindow: rand.Int63n(0) panics, in the model and in the real engine), and
          C04_pv_replays_precise (the WHOLE reported variation replays legally, for precise configurations without a table, any value,
-         any cancellation point).  Whole-PV replay WITH a table stays tested only.  SearchRand.v is executed against the real GetMove on every run (CASE RAND lines:
+         any cancellation point) and C04_analyze_all_lines_replay_precise (the same for every line of AnalyzeAll).  Whole-PV replay WITH a table stays tested only.  SearchRand.v is executed against the real GetMove on every run (CASE RAND lines:
          the values ai.rand draws are regenerated from Cfg.Seed and handed to the model).
    `_partial` = WHAT IS MISSING in (2)-(5) (all three points are closed by (4') for Analyze and by (9) for AnalyzeAll and the randomised
    GetMove):
